@@ -29,7 +29,7 @@ Proof.
   exists toks.
   destruct (match i_f_today i with
             | Some s => match parse_date toks s with Some c => inr (time_of_civil c) | None => inl EBadDate end
-            | None => inr (or_default (ce_now cfg) (w_clock w))
+            | None => inr (time_of_civil (civ (or_default (ce_now cfg) (w_clock w))))
             end) as [e|now]; [discriminate H|].
   destruct (pick_period w now toks (i_g_begin i) (i_l_begin i)) as [e|bt]; [discriminate H|].
   destruct (pick_period w now toks (i_g_end i) (i_l_end i)) as [e|et]; [discriminate H|].
